@@ -37,6 +37,18 @@ def docPairs : List (Field × SgField) :=
    (.shift_x, .x_shift), (.shift_y, .y_shift), (.shift_z, .z_shift),
    (.phi, .phi), (.psi, .psi), (.theta, .the), (.cls, .cls)]
 
+/-- digests of the documented, normalised bodies of the entry points (written down from the reviewed
+source; `Gen.C04.bodyDigests` is what the source says today, `Props/C04.bodies_documented` ties them) -/
+def docBodyDigests : List (String × String) :=
+  [("StopgapMotl.__init__", "d7fb346f05eaacb5"),
+   ("StopgapMotl.read_in", "e08d7b6f24613301"),
+   ("StopgapMotl.convert_to_motl", "41bddc0a26f2ac2c"),
+   ("StopgapMotl.convert_to_sg_motl", "35c4d762c513372b"),
+   ("StopgapMotl.sg_df_reset_index", "a328d3752cd8e76f"),
+   ("StopgapMotl.write_out", "6150d53d35833acb"),
+   ("stopgap2emmotl", "b93283c9d4d67905"),
+   ("emmotl2stopgap", "43955f188247229d")]
+
 /-- the 14 shared fields on the cryoCAT side -/
 def sharedFields : List Field := docPairs.map Prod.fst
 
@@ -151,11 +163,83 @@ def importFold (d : α) (pairs : List (Field × SgField)) (r : SgRow α) (p : Pa
 
 def importRow (d : α) (r : SgRow α) : Particle α := importFold d sgPairs r (Particle.ofFn (fun _ => d))
 
-/-- `StopgapMotl.convert_to_motl(stopgap_df)`; a missing column is a `KeyError` (`none`) -/
+def Cell.isNum : Cell α → Bool
+  | .num _ => true
+  | .str _ => false
+
+/-- the table is a DataFrame: every row has one cell per header entry -/
+def SgTable.rect (t : SgTable α) : Bool := t.rows.all (fun cells => cells.length == t.cols.length)
+
+/-- the 14 documented columns hold numbers in every row (the quantifier of the property: "arbitrary
+finite field values"); pandas would copy a text cell into the particle list as a `str` object, which
+no `Particle α` can represent — such a table is *rejected* by the model, not silently read as `d` -/
+def SgTable.numericIn (d : α) (pairs : List (Field × SgField)) (t : SgTable α) : Bool :=
+  t.rows.all (fun cells => pairs.all (fun es => (rowOfCells (.num d) t.cols cells es.2).isNum))
+
+/-- `StopgapMotl.convert_to_motl(stopgap_df)`; a missing column is a `KeyError` (`none`); a ragged
+table is no DataFrame and a text cell in one of the 14 columns is outside the model (`none`), so the
+fill value `d` of `Cell.toNum` / `rowOfCells` is never observed in an accepted import -/
 def importTable (d : α) (t : SgTable α) : Option (List (Particle α)) :=
-  if sgPairs.all (fun es => t.cols.contains es.2)
+  if sgPairs.all (fun es => t.cols.contains es.2) && t.rect && t.numericIn d sgPairs
   then some (t.rows.map (fun cells => importRow d (rowOfCells (.num d) t.cols cells)))
   else none
+
+
+/-! ### omitted keywords: the signature defaults of the source (`Gen.C04.*Default`) -/
+
+/-- `convert_to_sg_motl(motl_df)` / `convert_to_sg_motl(motl_df, reset_index=…)` -/
+def toSgOpt (ops : NumOps α) (reset : Option Bool) (motl : List (Particle α)) : Option (List (SgRow α)) :=
+  toSg ops (reset.getD Gen.C04.convResetDefault) motl
+
+/-- `write_out(path)` with `update_coord` / `reset_index` given or omitted -/
+def writeOutOpt [Add α] [Sub α] (ops : NumOps α) (round : α → α) (update reset : Option Bool)
+    (motl : List (Particle α)) : Option (SgTable α) :=
+  writeOutTable ops round (update.getD Gen.C04.writeUpdateDefault) (reset.getD Gen.C04.writeResetDefault) motl
+
+/-- `emmotl2stopgap(df, path)` with `update_coordinates` / `reset_index` given or omitted: re-centre
+first when asked, then `write_out(path, update_coord=False, reset_index=reset_index)` -/
+def em2sgOpt [Add α] [Sub α] (ops : NumOps α) (round : α → α) (update reset : Option Bool)
+    (motl : List (Particle α)) : Option (SgTable α) :=
+  writeOutTable ops round (update.getD Gen.C04.em2sgUpdateDefault) (reset.getD Gen.C04.em2sgResetDefault) motl
+
+/-! ### subtomogram numbers as integers: exact decoding of IEEE binary64 bit patterns
+
+The checker that decides the parity clause on the real output does not use floating-point `mod`: it
+decodes the bit pattern of the subtomogram number to the integer it denotes (pure `Nat`/`Int`
+arithmetic on sign, exponent and significand) and takes `% 2` of that integer. -/
+
+/-- the integer an IEEE-754 binary64 bit pattern denotes; `none` for NaN, ±inf and non-integral values -/
+def decodeInt (b : Nat) : Option Int :=
+  let sign := b / 2 ^ 63 % 2
+  let e := b / 2 ^ 52 % 2048
+  let m := b % 2 ^ 52
+  if e = 2047 then none
+  else
+    let sig := if e = 0 then m else 2 ^ 52 + m
+    let ex := if e = 0 then 1 else e              -- value = sig · 2^(ex − 1075)
+    let mag : Option Nat :=
+      if 1075 ≤ ex then some (sig * 2 ^ (ex - 1075))
+      else if sig % 2 ^ (1075 - ex) = 0 then some (sig / 2 ^ (1075 - ex)) else none
+    mag.map (fun n => if sign = 1 then -(n : Int) else (n : Int))
+
+/-- the binary64 bit pattern of the natural number `n` (exact for `n < 2^53`): exponent = position of
+the leading bit, significand = the remaining bits shifted to 52 places -/
+def encodeNat (n : Nat) : Nat :=
+  if n = 0 then 0 else (1023 + Nat.log2 n) * 2 ^ 52 + (n * 2 ^ (52 - Nat.log2 n) - 2 ^ 52)
+
+/-- the binary64 bit pattern of the integer `z` (exact for `|z| < 2^53`): sign bit + `encodeNat |z|` -/
+def encodeInt : Int → Nat
+  | .ofNat n => encodeNat n
+  | .negSucc n => 2 ^ 63 + encodeNat (n + 1)
+
+/-- number operations on bit patterns through the decoded integer: `ofNat` is the bit pattern of the
+float `n`, `modEq b m k` is `z % m = k` for the integer `z` the pattern denotes (false for a
+non-integral value: such a number is neither even nor odd) -/
+def intBitOps : NumOps Nat :=
+  { ofNat := encodeNat,
+    modEq := fun b m k => match decodeInt b with
+      | some z => z % (m : Int) == (k : Int)
+      | none => false }
 
 /-! ### verified checker: decides the clauses of the property on an output supplied by the harness -/
 
